@@ -98,11 +98,15 @@ func errClass(err error) string {
 func matchData(ref, got any) bool {
 	switch r := ref.(type) {
 	case string:
-		g, ok := got.(string)
-		if !ok {
+		if r == "<message>" {
+			_, ok := got.(string)
+			return ok
+		}
+		switch got.(type) {
+		case map[string]any, []any, nil:
 			return false
 		}
-		return r == "<message>" || r == g
+		return r == fmt.Sprint(got)
 	case map[string]any:
 		g, ok := got.(map[string]any)
 		if !ok || len(g) != len(r) {
@@ -127,7 +131,9 @@ func matchData(ref, got any) bool {
 		}
 		return true
 	}
-	return canonStr(ref) == canonStr(got)
+	// scalars: YAML literals reach the engine as strings and are coerced by the receiving schema,
+	// so 10 and "10" are the same value at this level
+	return fmt.Sprint(canon(ref)) == fmt.Sprint(canon(got))
 }
 
 // ---------------------------------------------------------------------------------------
@@ -173,7 +179,7 @@ func traceUpTo(s *Scenario, w *env.World, upto int) *traceView {
 			continue
 		}
 		switch e.Kind {
-		case "notify-change-done", "notify-complete-done":
+		case "notify-change", "notify-complete":
 			n, _ := asNotif(e.Data)
 			if n.OutputID != "" {
 				k := key(e.Step, n.Prev, n.OutputID)
@@ -189,20 +195,44 @@ func traceUpTo(s *Scenario, w *env.World, upto int) *traceView {
 					}
 				}
 			}
-		case "notify-failure-done":
+		case "notify-failure":
 			stage, _ := e.Data.(string)
 			sk := "steps." + e.Step + "." + stage
 			if _, dup := tv.failedAt[sk]; !dup {
 				tv.failedAt[sk] = e.Seq
 			}
-			for k, st := range r.St {
-				if strings.HasPrefix(k, sk+".") && st == Never {
-					r.St[k] = Impossible
+			// a stage that cannot happen makes the stages that can only follow it impossible too
+			// (the AND edges of the declared lifecycle)
+			for _, stg := range lifecycleClosure(ids[e.Step], stage) {
+				pre := "steps." + e.Step + "." + stg + "."
+				for k, st := range r.St {
+					if strings.HasPrefix(k, pre) && st == Never {
+						r.St[k] = Impossible
+					}
 				}
 			}
 		}
 	}
 	return tv
+}
+
+var lifecycleAnd = map[string]map[string][]string{
+	"plugin":  {"deploy": {"starting"}, "enabling": {"starting", "disabled"}, "starting": {"running"}, "running": {"outputs"}},
+	"foreach": {"enabling": {"execute", "disabled"}, "execute": {"outputs"}},
+}
+
+func lifecycleClosure(kind, stage string) []string {
+	out := []string{stage}
+	seen := map[string]bool{stage: true}
+	for i := 0; i < len(out); i++ {
+		for _, n := range lifecycleAnd[kind][out[i]] {
+			if !seen[n] {
+				seen[n] = true
+				out = append(out, n)
+			}
+		}
+	}
+	return out
 }
 
 // evalSet returns every value the node may legitimately evaluate to over the store
